@@ -2,6 +2,7 @@ package main
 
 import (
 	"fmt"
+	"sort"
 	"go/token"
 	"go/types"
 	"strings"
@@ -23,6 +24,8 @@ func exprKey(v ssa.Value, depth int) string {
 		return "$" + x.Name()
 	case *ssa.MakeInterface:
 		return exprKey(x.X, depth+1)
+	case *ssa.ChangeInterface:
+		return exprKey(x.X, depth+1)
 	case *ssa.ChangeType:
 		return exprKey(x.X, depth+1)
 	case *ssa.Convert:
@@ -35,13 +38,21 @@ func exprKey(v ssa.Value, depth int) string {
 				return exprKey(b, depth+1) + "." + fv.Name()
 			}
 			if a, ok := x.X.(*ssa.Alloc); ok {
-				// varargs array element / local: describe through its stores
+				// local: describe through its stores (whole-value and per-field)
 				var parts []string
 				for _, ref := range *a.Referrers() {
 					if st, ok := ref.(*ssa.Store); ok && st.Addr == a {
 						parts = append(parts, exprKey(st.Val, depth+1))
 					}
+					if fa, ok := ref.(*ssa.FieldAddr); ok {
+						for _, r2 := range *fa.Referrers() {
+							if st, ok := r2.(*ssa.Store); ok && st.Addr == ssa.Value(fa) {
+								parts = append(parts, fieldVar(fa.X.Type(), fa.Field).Name()+"="+exprKey(st.Val, depth+1))
+							}
+						}
+					}
 				}
+				sort.Strings(parts)
 				return "local{" + strings.Join(parts, "|") + "}"
 			}
 		}
